@@ -470,7 +470,7 @@ CHECKS["C17"] = {
             "order, and the loop never sleeps to a forced slice expiry with one pending; without stop and before the clock reaches end_time run() "
             "does not return and every accepted push is delivered; at most one cycle begins after request_stop() returned; no deadlock / livelock. "
             "non-trivial = a schedule whose observable log differs from the default schedule's.",
-    "bounds": {"quick": "preemption bound 3 (timer only), 2 (one extra thread), 1 (two extra threads)", "thorough": "bound 3 / 3 / 2, all configuration combinations"},
+    "bounds": {"quick": "preemption bound 3 (timer only), 2 (one extra thread), 1 (two extra threads)", "thorough": "bound 4 / 4 / 3 / 2 (for 0 / 1 / 2 / 3 extra thread-operations), all configuration combinations"},
     "min_counters": {"quick": {"nontrivial": 200, "sched.executions": 20000}},
     "assumptions": COMMON_ASSUMPTIONS + [
         "Environment model: starting the graph and every evaluation cycle take at least MIN_TD (1 us) of wall time; without this a burst of pushes "
@@ -492,7 +492,7 @@ CHECKS["C07"] = {
                  "and every interleaving of two threads that wire, build and run independent graphs, up to a deviation bound",
     "design_ref": "DESIGN.md 2/C07",
     "parts": [
-        {"name": "hist", "exe": "c07_repro", "sources": ["c07_repro.cpp"], "sub": "hist", "shards": 32},
+        {"name": "hist", "exe": "c07_repro", "sources": ["c07_repro.cpp"], "sub": "hist", "shards": {"quick": 32, "thorough": 256}},
         {"name": "clock", "exe": "c07_repro", "sources": ["c07_repro.cpp"], "sub": "clock", "shards": 8, "pin": True},
         {"name": "threads", "exe": "c07_repro", "sources": ["c07_repro.cpp"], "sub": "threads", "shards": 32, "pin": True},
     ],
@@ -508,7 +508,7 @@ CHECKS["C07"] = {
             "controlled threads, every interleaving at mutex/condvar operations (type registries, plan factories, intern tables). "
             "non-trivial = history of length >= 2 / schedule differing from the default.",
     "bounds": {"quick": "histories: L<=3 over 50 letters; clock: <= 2 jumps; threads: 1 preemption for all 45 unordered pairs, 2 for three pairs (GlobalState/GlobalContext, map_/switch_, record/replay)",
-               "thorough": "histories: L<=4 over 58 letters; <= 3 jumps; 2 preemptions for all 81 ordered pairs"},
+               "thorough": "histories: L<=3 over 58 letters, L=4 over 26 letters; <= 3 jumps; 2 preemptions for all 81 ordered pairs"},
     "min_counters": {"quick": {"nontrivial": 100000, "threads.executions": 5000, "clock.executions": 500}},
     "assumptions": COMMON_ASSUMPTIONS + [
         "Unsynchronised data races are outside a scheduler that switches at synchronisation operations (no ThreadSanitizer build of the tree in this image's budget).",
